@@ -187,9 +187,14 @@ def build_spec(kind, sd):
         s.declare_var(var, cls)
         if sd.get('struct_io'):
             s.set_var_io_type(var, sd['struct_io'])
+    # (the order of the two configuration calls is the caller's business: half of the specifications that have both
+    # get the sampling period first and the default unit afterwards)
+    period_first = sd.get('unit') is not None and sd.get('period') is not None and len(sd.get('text', '')) % 2 == 1
+    if period_first:
+        s.set_sampling_period(*sd['period'])
     if sd.get('unit') is not None:
         s.unit = sd['unit']
-    if sd.get('period') is not None:
+    if sd.get('period') is not None and not period_first:
         s.set_sampling_period(*sd['period'])
     for sub in sd.get('subspecs', ()):
         s.add_sub_spec(sub)
